@@ -9,16 +9,20 @@ ID = "C03"
 LEVEL = "fault_enumeration"
 RULE = ("a Hypothesis generator assembles well-typed base programs from typed snippets (annotated initializer, re-assignment, "
         "call arguments, returns, conditions of if / else-if / while / assert, list index and element, operators, field and "
-        "method use, from-loop bounds and step, map key and value) placed in syntactic contexts (module level, function, "
-        "closure, method, else-if arm, loop body, through a type alias, in an imported module); every typed SITE of the "
+        "method use, from-loop bounds and step, map key and value, function- / class- / map-typed positions, fixed-shape list "
+        "literals) placed in syntactic contexts (module level, function, closure, method, functions and methods whose returns sit "
+        "in if / else-if / else arms, else-if arm, loop body, through a type alias, in an imported module); every typed SITE of the "
         "program is recorded; the control (base program) must compile and run; then EVERY applicable fault of a fixed catalogue "
         "is applied at EVERY site, one at a time: value of another kind family (number / str / bool / list / function / object), "
+        "a present OPTIONAL of the expected type, a near-miss function / list / map / class type, a fixed-shape list literal with "
+        "a wrong / extra / missing element, a return statement replaced by a print (missing return on one path), "
         "one argument more / fewer, bare return, value returned from a void function, undeclared identifier, unknown field / "
         "method, call of a non-function, index of a non-indexable, operator on unsupported kinds. Oracle per mutant: exit status "
         "1 (not 101/134), a diagnostic `--> <right file>:<line of the mutated statement>:col`, and none of the program's output "
         "(`@START` is its first statement). evaluations = mutants. Non-trivial = the site is nested (not a top-level statement of "
         "the entry module); distinct by (program, site, fault)")
-ASSUMPTIONS = ["faults cross kind families only, so documented coercions (int -> int?, numeric promotion, str + any) never make a mutant well-typed",
+ASSUMPTIONS = ["documented coercions (T -> T?, numeric promotion, str + any, operators applied to optionals) are kept out of the catalogue, so no mutant is well-typed",
+               "for a missing return the diagnostic may name any line of the enclosing function",
                "the diagnostic's line must be the line of the mutated statement (all snippets are single-line statements or block headers)"]
 
 # wrong-family replacement expressions per expected family; g_* are globals of every base program
@@ -26,8 +30,11 @@ WRONG = {
     "num": ["\"txt\"", "true", "g_list", "g_fn", "g_obj"],
     "str": ["7", "true", "g_list", "g_fn", "g_obj"],
     "bool": ["7", "\"txt\"", "g_list", "g_fn"],
-    "list": ["7", "\"txt\"", "true", "g_fn"],
-    "obj": ["7", "\"txt\"", "true", "g_list"],
+    "list": ["7", "\"txt\"", "true", "g_fn", "g_slist", "g_oilist"],
+    "obj": ["7", "\"txt\"", "true", "g_list", "g_other"],
+    # near-miss function types for `fn(int) -> int`: other return type, no return value, other arity, other parameter type
+    "fn1": ["g_fs", "g_fv", "add", "greet", "7", "g_list"],
+    "map": ["g_map_ss", "g_map_is", "7", "g_list"],
 }
 PRELUDE = """g_list: [int...] = [1, 2, 3]
 g_fn = fn(u: int) -> int {
@@ -59,6 +66,32 @@ total = fn(l: [int...]) -> int {
 	return l.len()
 }
 type Num int
+g_fs = fn(u: int) -> str {
+	return "s"
+}
+g_fv = fn(u: int) {
+}
+apply = fn(f: fn(int) -> int, x: int) -> int {
+	return f(x)
+}
+g_slist: [str...] = ["a"]
+g_oilist: [int?...] = [1, nil]
+g_map = map[str, int] {"k": 1}
+g_map_ss = map[str, str] {"k": "v"}
+g_map_is = map[int, int] {1: 1}
+class H {
+	n: int
+	constructor(self) {
+		self.n = 1
+	}
+}
+g_other = H()
+takes_g = fn(o: G) -> int {
+	return o.n
+}
+takes_m = fn(m: map[str, int]) -> int {
+	return m.len()
+}
 g_oint: int? = 5
 g_ostr: str? = "s"
 g_obool: bool? = true
@@ -103,7 +136,7 @@ class Builder:
 def snippet(b, kinds=None, in_fn_ret=None):
     """append one well-typed snippet with recorded sites"""
     g = b.g
-    choice = g.choice(kinds or ["decl", "reassign", "call", "cond", "index", "oper", "member", "loop", "map", "listel", "alias", "bytearith", "callret", "tuple"])
+    choice = g.choice(kinds or ["decl", "reassign", "call", "cond", "index", "oper", "member", "loop", "map", "listel", "alias", "bytearith", "callret", "tuple", "fnpos", "objpos"])
     if choice == "decl":
         t = g.choice(["int", "str", "bool", "list", "float"])
         v = b.name()
@@ -194,6 +227,34 @@ def snippet(b, kinds=None, in_fn_ret=None):
     elif choice == "callret":
         v = b.name()
         b.add("%s: int = %s" % (v, b.site("callee", "g_fn", "callee", "(1)")))
+    elif choice == "fnpos":
+        v = b.name("h")
+        k = g.choice(["decl", "arg", "element", "reassign"])
+        if k == "decl":
+            b.add("%s: fn(int) -> int = %s" % (v, b.site("fn1", "g_fn")))
+        elif k == "arg":
+            b.add("%s = apply(%s, %s)" % (v, b.site("fn1", "g_fn"), b.site("num", "2")))
+        elif k == "element":
+            b.add("%s: [fn(int) -> int...] = [g_fn, %s]" % (v, b.site("fn1", "g_fn")))
+        else:
+            b.add("%s = g_fn" % v)
+            b.add("%s = %s" % (v, b.site("fn1", "g_fn")))
+    elif choice == "objpos":
+        v = b.name("o")
+        k = g.choice(["decl", "arg", "element", "reassign", "mapdecl", "maparg"])
+        if k == "decl":
+            b.add("%s: G = %s" % (v, b.site("obj", "g_obj")))
+        elif k == "arg":
+            b.add("%s = takes_g(%s)" % (v, b.site("obj", "g_obj")))
+        elif k == "element":
+            b.add("%s: [G...] = [g_obj, %s]" % (v, b.site("obj", "g_obj")))
+        elif k == "reassign":
+            b.add("%s = g_obj" % v)
+            b.add("%s = %s" % (v, b.site("obj", "g_obj")))
+        elif k == "mapdecl":
+            b.add("%s: map[str, int] = %s" % (v, b.site("map", "g_map")))
+        else:
+            b.add("%s = takes_m(%s)" % (v, b.site("map", "g_map")))
     elif choice == "tuple":
         v = b.name("t")
         if g.chance(50):
